@@ -277,17 +277,22 @@ def run_C08(ctx):
     for a, b in pairs:
         for alg in ALGS:
             for st in STACKS:
-                first.append(gen.raw_line(alg, a, b, stack=st))
-                meta.append((alg, a, b, st))
+                # no deadline, and the deadline expiring at probe 0 / 1 / 2 (the
+                # fallback paths make different hook calls)
+                for dl in (None, 0, 1, 2):
+                    if dl is not None and dl > 0 and len(a) + len(b) < 3:
+                        continue
+                    first.append(gen.raw_line(alg, a, b, stack=st, dl=dl))
+                    meta.append((alg, a, b, st, dl))
     impl, _, _ = C.evaluate(ctx, "raw-stacks-unfailed", first, rel)
     lines = []
-    for (alg, a, b, st), im in zip(meta, impl):
+    for (alg, a, b, st, dl), im in zip(meta, impl):
         calls = im.split(" ")[0].split("=", 1)[1] if im.startswith("calls=") else "-"
         ncalls = 0 if calls == "-" else len(calls.split(","))
         ks = range(0, ncalls + 1) if ncalls <= 12 else sorted({0, 1, ncalls - 1, ncalls} | {ctx.rng.randrange(ncalls) for _ in range(6)})
         for k in ks:
-            lines.append(gen.raw_line(alg, a, b, stack=st, fail=k))
-            ctx.count("raw:fail-at-k")
+            lines.append(gen.raw_line(alg, a, b, stack=st, fail=k, dl=dl))
+            ctx.count("raw:fail-at-k" + ("" if dl is None else "+deadline"))
     C.evaluate(ctx, "raw-stacks-fail-every-k", lines, rel)
     # arbitrary scripts through the adapters, failing at every k
     ad = []
@@ -310,7 +315,8 @@ SPECS["C08"] = dict(
     run=run_C08,
     generators="raw component over 3 algorithms x 7 hook stacks (recording hook, &mut, NoFinishHook, Replace over a hook "
                "with / without its own replace, Compact, Compact+Replace) on every binary pair up to length 3/4 and "
-               "random pairs up to 25: the unfailed run, then the recording hook failing at every call index k; "
+               "random pairs up to 25, without deadline and with the virtual clock expiring at probe 0, 1 and 2: the unfailed "
+               "run, then the recording hook failing at every call index k; "
                "adapter component: every valid script of binary pairs up to length 2 through the adapter stacks, "
                "failing at every k",
 )
